@@ -406,6 +406,8 @@ structure MTally where
   firstLeak : String := ""
   kwRej : Nat := 0
   firstKwRej : String := ""
+  kwPre : Nat := 0
+  firstKwPre : String := ""
   deriving Inhabited
 
 /-- judge one real parse of a two-mode grammar.  `events` = every lexing step of the real parser
@@ -467,6 +469,22 @@ def evalEvents (si : SetInfo) (valid : Array (List Nat)) (cps : String) (input :
   -- "a keyword is recognised … when the whole word equals it" / which tokens become keywords is part of which token
   -- wins: the parse failed at a step where the lexer returned a token WITHOUT an action in the state, although a token
   -- that HAS an action there matches exactly the whole word (the word token's longest match) at that position
+  -- sub-case (known finding): the whole-word token is itself a KEYWORD, and a keyword of HIGHER precedence matches a
+  -- proper prefix of the word: the keyword lexer applies "higher precedence first", returns the shorter keyword, the
+  -- whole-word test fails and the word token (not valid here) is returned
+  let kwPrefixCase : Bool :=
+    match si.word, events.getLast? with
+    | some w, some (tok, pos, _, state) =>
+      let rest := input.drop pos
+      let inp := skipExtras isExtra rest
+      let vs := valid.getD state []
+      if isErr && !vs.contains tok then
+        match (matchLens (tokAt si.toks w).re inp).getLast? with
+        | some nw => vs.any (fun t => t != w && si.kws.contains t && matchesB (tokAt si.toks t).re (inp.take nw) &&
+            si.kws.any (fun k => decide ((tokAt si.toks k).prec > (tokAt si.toks t).prec) && (matchLens (tokAt si.toks k).re inp).any (fun n => n < nw)))
+        | none => false
+      else false
+    | _, _ => false
   let wholeWordRejected : Bool :=
     match si.word, events.getLast? with
     | some w, some (tok, pos, _, state) =>
@@ -487,7 +505,8 @@ def evalEvents (si : SetInfo) (valid : Array (List Nat)) (cps : String) (input :
   if isErr && mergedLeak && !mergedOvertake then
     return { a with leak := a.leak + 1, firstLeak := if a.firstLeak == "" then cps else a.firstLeak }
   if wholeWordRejected && !mergedOvertake then
-    a := { a with kwRej := a.kwRej + 1, firstKwRej := if a.firstKwRej == "" then cps else a.firstKwRej }
+    if kwPrefixCase then a := { a with kwPre := a.kwPre + 1, firstKwPre := if a.firstKwPre == "" then cps else a.firstKwPre }
+    else a := { a with kwRej := a.kwRej + 1, firstKwRej := if a.firstKwRej == "" then cps else a.firstKwRej }
   if bad && !(isErr && mergedOvertake) then a := { a with corrBad := a.corrBad + 1, firstCorr := if a.firstCorr == "" then cps else a.firstCorr }
   if isErr && mergedOvertake then
     a := { a with overtake := a.overtake + 1, firstOvertake := if a.firstOvertake == "" then cps else a.firstOvertake }
@@ -600,9 +619,10 @@ def step (s : St) (line : String) : IO St := do
     let a := s.mt
     let corr := if a.corrBad == 0 then "ok" else s!"DIFF {a.firstCorr}"
     let judge := if a.other > 0 then s!"FAIL other {a.firstOther}" else if a.kwRej > 0 then s!"FAIL kwreject {a.firstKwRej}" else if a.leak > 0 then s!"FAIL mergedleak {a.firstLeak}"
+      else if a.kwPre > 0 then s!"FAIL kwprefix {a.firstKwPre}"
       else if a.overtake > 0 then s!"FAIL overtake {a.firstOvertake}" else "ok"
     let distinctSets := (s.mvalid.toList.eraseDups).length
-    IO.println s!"S-{id} corr={corr} judge={judge} strings={a.strings} errors={a.errors} nontrivial={a.ctx} corrbad={a.corrBad} docdev={a.overtake + a.other + a.leak + a.kwRej} overtake={a.overtake} other={a.other} mergedleak={a.leak} kwreject={a.kwRej} tokens={a.leaves} ntok={s.msi.toks.length} word={s.msi.word.isSome} keywords={s.msi.kws.length} reserved={s.msi.reserved.length} mode=true states={s.mvalid.size} validsets={distinctSets}"
+    IO.println s!"S-{id} corr={corr} judge={judge} strings={a.strings} errors={a.errors} nontrivial={a.ctx} corrbad={a.corrBad} docdev={a.overtake + a.other + a.leak + a.kwRej + a.kwPre} kwprefix={a.kwPre} overtake={a.overtake} other={a.other} mergedleak={a.leak} kwreject={a.kwRej} tokens={a.leaves} ntok={s.msi.toks.length} word={s.msi.word.isSome} keywords={s.msi.kws.length} reserved={s.msi.reserved.length} mode=true states={s.mvalid.size} validsets={distinctSets}"
     return s
   | ["kw", l] => return { s with si := { s.si with kws := if l == "-" then [] else (l.splitOn ",").map natOf } }
   | ["ambig", l] =>
